@@ -14,18 +14,18 @@ import (
 // tbl is a table-driven oracle for decision-table rules (P5): handlers keyed by resolved callee.
 type tbl struct {
 	absint.BaseOracle
-	c        *core.Ctx
-	callee   map[*ssa.Function]func(ip *absint.Interp, args []absint.Value) absint.Value // in-scope, origin-folded
-	ext      map[string]func(ip *absint.Interp, args []absint.Value) absint.Value        // external callee full name
-	invoke   map[*types.Func]func(ip *absint.Interp, args []absint.Value) absint.Value   // interface method
-	invokeN  map[string]func(ip *absint.Interp, args []absint.Value) absint.Value        // interface method by name (external interfaces)
-	typeTest func(v absint.Value, T types.Type) (bool, bool)
+	c         *core.Ctx
+	callee    map[*ssa.Function]func(ip *absint.Interp, args []absint.Value) absint.Value // in-scope, origin-folded
+	ext       map[string]func(ip *absint.Interp, args []absint.Value) absint.Value        // external callee full name
+	invoke    map[*types.Func]func(ip *absint.Interp, args []absint.Value) absint.Value   // interface method
+	invokeN   map[string]func(ip *absint.Interp, args []absint.Value) absint.Value        // interface method by name (external interfaces)
+	typeTest  func(v absint.Value, T types.Type) (bool, bool)
 	typeTestC func(ip *absint.Interp, v absint.Value, T types.Type) (bool, bool) // may consult the choice tape
-	field    func(ip *absint.Interp, obj *absint.Tok, name string, typ types.Type) absint.Value
-	global   func(g *ssa.Global) absint.Value
-	dynamic  func(ip *absint.Interp, fn absint.Value, args []absint.Value) (absint.Value, bool)
-	errN     int
-	syncMaps map[absint.Value]*syncMapModel // sync.Map objects by receiver identity
+	field     func(ip *absint.Interp, obj *absint.Tok, name string, typ types.Type) absint.Value
+	global    func(g *ssa.Global) absint.Value
+	dynamic   func(ip *absint.Interp, fn absint.Value, args []absint.Value) (absint.Value, bool)
+	errN      int
+	syncMaps  map[absint.Value]*syncMapModel // sync.Map objects by receiver identity
 }
 
 type syncMapModel struct {
